@@ -338,7 +338,7 @@ def plan(tier):
 
 def run_part(part, seed, shard, nshards, budget):
     strat, fn = PARTS[part]
-    return hyp.search(strat(), fn, budget["n_examples"], seed, part, shrink=(part == "draws"))
+    return hyp.search(strat(), fn, budget["n_examples"], seed, part, shrink=(part == "draws"), skip_zero=(part == "dist"))
 
 
 def replay(part, case):
